@@ -106,6 +106,9 @@ Spec == Init /\ [][Next]_vars
 \* ---- the property ----
 SameOutcome == /\ sn.log = sf.log /\ sn.pos = sf.pos /\ sn.entry = sf.entry /\ sn.bal = sf.bal /\ fstat = "run"
 Equiv   == (pc = "compare" /\ pre = "ok") => SameOutcome
+\* the same, setting aside the one known defect class (C12 finding "inner-gap-fill", repaired by InnerFix): runs in which
+\* the fast simulator filled an order in a gapped minute inside a chunk.  With InnerFix = TRUE Equiv itself must hold.
+EquivKnown == (pc = "compare" /\ pre = "ok" /\ ~sf.gap) => SameOutcome
 NoErr   == sn.err = "none" /\ sf.err = "none"
 InPre   == pre = "ok"                     \* CONSTRAINT: runs outside the precondition are not extended
 \* ---- exports for the replay into the real simulators (INVARIANT position: evaluated once per distinct state; PrintT is TRUE)
